@@ -15,28 +15,43 @@ VARIABLES delivered,   \* octets of the client stream received so far
           closing,     \* the server must close now (error status sent, Unregister, unsupported command)
           closed,
           smem,        \* device memory
-          sent         \* number of replies sent
-svars == <<delivered, eof, next, pend, closing, closed, smem, sent>>
+          sent,        \* number of replies sent
+          conns        \* connection serials opened by Forward Open on this session and not closed
+svars == <<delivered, eof, next, pend, closing, closed, smem, sent, conns>>
 
 SInit(SC) == /\ delivered = 0 /\ eof = FALSE /\ next = 1 /\ pend = 0 /\ closing = FALSE /\ closed = FALSE
-             /\ smem = SC.mem0 /\ sent = 0
+             /\ smem = SC.mem0 /\ sent = 0 /\ conns = {}
 
 Recv(SC, n) == /\ ~eof /\ ~closed /\ n >= 1 /\ delivered + n <= Len(Stream(SC))
                /\ delivered' = delivered + n
-               /\ UNCHANGED <<eof, next, pend, closing, closed, smem, sent>>
+               /\ UNCHANGED <<eof, next, pend, closing, closed, smem, sent, conns>>
 Poll == ~closed /\ UNCHANGED svars
-Eof  == ~closed /\ eof' = TRUE /\ UNCHANGED <<delivered, next, pend, closing, closed, smem, sent>>
+Eof  == ~closed /\ eof' = TRUE /\ UNCHANGED <<delivered, next, pend, closing, closed, smem, sent, conns>>
 
 \* C02: a request is acted upon iff its final octet has been delivered
 Complete(SC, i) == i <= Len(SC.frames) /\ delivered >= EndOf(SC, i)
 Proc(SC) == /\ ~closed /\ ~closing /\ pend = 0 /\ Complete(SC, next)
             /\ IF Silent(SC.frames[next]) THEN pend' = 0 /\ closing' = TRUE ELSE pend' = next /\ closing' = FALSE
             /\ next' = next + 1
+            \* DEVIATION(code): a request that fails inside request processing (an unsupported command) makes the server run its
+            \* end-of-session clean-up at once: the Connection Manager forgets the session's connections
+            /\ conns' = IF SC.frames[next].kind = "badcmd" THEN {} ELSE conns
             /\ UNCHANGED <<delivered, eof, closed, smem, sent>>
 
+\* The connection table: entries [serial, id] -- the connection serial and the O->T connection id the reply granted.
+\* A Forward Open whose O->T id is the originator's (not point-to-point) and equals that of an open connection re-opens it.
+Reopen(f) == f.fo.ot.type # 2 /\ \E c \in conns : c.id = f.fo.ot.id
+ConnAfter(f, b) ==
+  CASE ConnEffect(f) = "open"  -> conns \cup { [serial |-> f.fo.serial, id |-> SubSeq(CipIn(b), 5, 8)] }
+    [] ConnEffect(f) = "close" -> { c \in conns : c.serial # f.fo.serial }
+    [] OTHER -> conns
 Send(SC, b) == /\ ~closed /\ pend # 0
-               /\ \E o \in ReplyOutcomes(SC, smem, SC.frames[pend], b) :
-                     smem' = o.mem /\ closing' = o.close
+               /\ LET f == SC.frames[pend] IN
+                  \/ \E o \in ReplyOutcomes(SC, smem, f, b) : smem' = o.mem /\ closing' = o.close /\ conns' = ConnAfter(f, b)
+                  \* DEVIATION(code, Connection_Manager.forward_open): re-opening an open connection with identical parameters is
+                  \* meant to succeed (allowed above) but is refused with status 0x08 (dotdict has no .getattr); nothing changes
+                  \/ /\ f.kind = "fwdopen" /\ Reopen(f) /\ b = RRReply(f, EncForwardOpenFail(f.fo, 8, <<>>))
+                     /\ closing' = FALSE /\ UNCHANGED <<smem, conns>>
                /\ pend' = 0 /\ sent' = sent + 1
                /\ UNCHANGED <<delivered, eof, next, closed>>
 
@@ -46,5 +61,9 @@ Close(SC) == /\ ~closed
              /\ \/ closing
                 \/ eof /\ pend = 0 /\ ~Complete(SC, next)
              /\ closed' = TRUE
+             \* DEVIATION(code, main.enip_srv_tcp): only a session that the client ends at a frame boundary is cleaned up (the
+             \* Connection Manager then forgets the connections it opened).  A session the server ends itself (error status,
+             \* Unregister) or that ends inside a frame leaves its Forward Open entries in the table.
+             /\ conns' = IF ~closing /\ delivered = EndOf(SC, next - 1) THEN {} ELSE conns
              /\ UNCHANGED <<delivered, eof, next, pend, closing, smem, sent>>
 =============================================================================
